@@ -171,6 +171,14 @@ def corpus():
         {'kind': 'formula', 'fn': 'COUNT', 'formula': '=COUNT(A1:A6)', 'sheets': base, 'args': [area([[1], [True], ['x'], [5], [E], [E]])]},
         {'kind': 'formula', 'fn': 'SUM', 'formula': '=SUM(Other!A1:A2,5)', 'sheets': base, 'args': [area([[7], [E]]), {'t': 'lit', 'v': 5}]},
     ]
+    # areas whose corner columns have different letter counts (Y..AB, Z..AA): the area must still be the whole rectangle
+    wide = [['S', {'Y1': 1, 'Z1': 2, 'AA1': 4, 'AB1': 8, 'Y2': 16, 'Z2': 'x', 'AA2': 32, 'AB2': True, 'A1': 3}], ['Other', {'A1': 7}]]
+    rs += [
+        {'kind': 'formula', 'fn': 'SUM', 'formula': '=SUM(Y1:AB2)', 'sheets': wide, 'args': [area([[1, 2, 4, 8], [16, 'x', 32, True]])]},
+        {'kind': 'formula', 'fn': 'MAX', 'formula': '=MAX(Z1:AA1,A1)', 'sheets': wide, 'args': [area([[2, 4]]), {'t': 'cell', 'v': 3}]},
+        {'kind': 'formula', 'fn': 'COUNT', 'formula': '=COUNT(Y1:AB2)', 'sheets': wide, 'args': [area([[1, 2, 4, 8], [16, 'x', 32, True]])]},
+        {'kind': 'formula', 'fn': 'AVERAGE', 'formula': '=AVERAGE(A1,Y2:AA2)', 'sheets': wide, 'args': [{'t': 'cell', 'v': 3}, area([[16, 'x', 32]])]},
+    ]
     rs += [x['witness'] for x in C.known_findings()['findings'] if x['property'] == 'C11']
     return rs
 
